@@ -27,9 +27,9 @@ func (c *Ctx) chanKey(v ssa.Value) string {
 				f := ir.FieldOfAddr(a)
 				return fieldKey(a.X.Type(), f)
 			case *ssa.FreeVar:
-				return "var:" + a.Name()
+				return c.cellKey(a)
 			case *ssa.Alloc:
-				return "var:" + a.Comment
+				return c.cellKey(a)
 			case *ssa.Global:
 				return "global:" + a.Name()
 			}
@@ -39,7 +39,7 @@ func (c *Ctx) chanKey(v ssa.Value) string {
 	case *ssa.Parameter:
 		return "param:" + x.Name()
 	case *ssa.FreeVar:
-		return "var:" + x.Name()
+		return c.cellKey(x)
 	case *ssa.MakeChan:
 		return "local:" + types.TypeString(x.Type(), func(p *types.Package) string { return p.Name() })
 	case *ssa.Call:
@@ -272,4 +272,50 @@ func (c *Ctx) blockingDiscipline(table []bareOp, minSelects int) {
 		}
 		c.pass(construct, at[0], fmt.Sprintf("%d site(s), class %s: %s", len(at), t.class, t.why), at...)
 	}
+}
+
+// cellKey names a channel held in a local variable cell or captured variable
+// independently of the variable's name: by the type of the channel made into
+// it ("local:chan T") or, when it is fed from elsewhere, by its type alone.
+func (c *Ctx) cellKey(v ssa.Value) string {
+	short := func(t types.Type) string {
+		if p, ok := t.Underlying().(*types.Pointer); ok {
+			if _, isChan := p.Elem().Underlying().(*types.Chan); isChan {
+				t = p.Elem()
+			}
+		}
+		return types.TypeString(t, func(p *types.Package) string { return p.Name() })
+	}
+	var cell ssa.Value = v
+	if fv, ok := v.(*ssa.FreeVar); ok {
+		// binding at the closure creation
+		fn := fv.Parent()
+		if p := fn.Parent(); p != nil {
+			ir.Instrs(p, func(in ssa.Instruction) {
+				mc, ok := in.(*ssa.MakeClosure)
+				if !ok || mc.Fn != ssa.Value(fn) {
+					return
+				}
+				for i, b := range mc.Bindings {
+					if fn.FreeVars[i] == fv {
+						cell = b
+					}
+				}
+			})
+		}
+		if inner, ok := cell.(*ssa.FreeVar); ok && inner != fv {
+			return c.cellKey(inner)
+		}
+	}
+	if al, ok := cell.(*ssa.Alloc); ok {
+		for _, st := range ir.StoresTo(al) {
+			if mk, ok := st.Val.(*ssa.MakeChan); ok {
+				return "local:" + short(mk.Type())
+			}
+		}
+	}
+	if mk, ok := cell.(*ssa.MakeChan); ok {
+		return "local:" + short(mk.Type())
+	}
+	return "var:" + short(v.Type())
 }
